@@ -28,6 +28,8 @@ type nativeCase struct {
 	Params  map[string]int    `json:"params"`
 	Kind    string            `json:"kind"` // witness | violation | known
 	Sched   []int             `json:"sched,omitempty"`
+	Decisions []int           `json:"decisions,omitempty"`
+	Selects   []int           `json:"selects,omitempty"`
 }
 
 type nativeResult struct {
@@ -94,6 +96,7 @@ type zzCase struct {
 	Chooses []int             ` + "`json:\"chooses\"`" + `
 	Params  map[string]int    ` + "`json:\"params\"`" + `
 	Sched   []int             ` + "`json:\"sched\"`" + `
+	Selects []int             ` + "`json:\"selects\"`" + `
 }
 
 type zzObs struct {
@@ -121,6 +124,7 @@ func zzReset(c *zzCase) {
 		seq = append(seq, int64(v))
 	}
 	zzclock.ZZClockSet(seq)
+	zzclock.ZZSchedSetSelects(c.Selects)
 	zzclock.ZZSchedSet(c.Sched)
 	zzCur = c
 	zzSeq = map[string]int{}
@@ -308,7 +312,7 @@ func TestZZReplay(t *testing.T) {
 			f()
 			res.Outcome = "ok"
 			if zzclock.ZZSchedDiverged() {
-				res.Msg = "schedule-diverged"
+				res.Msg = "schedule-diverged " + zzclock.ZZSchedStatus()
 			}
 			zzclock.ZZSchedSet(nil)
 		}()
@@ -338,7 +342,10 @@ func TestZZReplay(t *testing.T) {
 const clockFile = `package errors
 
 import (
+	"fmt"
+	"os"
 	"runtime"
+	"strings"
 	"sync"
 	"time"
 )
@@ -400,6 +407,7 @@ func zzGoID() uint64 {
 // ZZSchedSet starts (or, with an empty trace, stops) schedule replay; the caller becomes thread 0.
 func ZZSchedSet(trace []int) {
 	zzSchedMu.Lock()
+	zzSchedEpoch++
 	zzSchedTrace, zzSchedPos, zzSchedDiverge = trace, 0, false
 	zzSchedActive = len(trace) > 0
 	zzSchedIDs = map[uint64]int{zzGoID(): 0}
@@ -414,6 +422,14 @@ func ZZSchedDiverged() bool {
 	defer zzSchedMu.Unlock()
 	return zzSchedDiverge
 }
+
+func ZZSchedStatus() string {
+	zzSchedMu.Lock()
+	defer zzSchedMu.Unlock()
+	return fmt.Sprintf("pos=%d/%d running=%d active=%v diverged=%v waiting=%v", zzSchedPos, len(zzSchedTrace), zzSchedRunning, zzSchedActive, zzSchedDiverge, zzSchedWaiting)
+}
+
+var zzSchedWaiting = map[int]int{}
 
 // ZZSchedQuiet evaluates f without scheduling points on the calling goroutine (wait predicates).
 func ZZSchedQuiet(f func() bool) bool {
@@ -430,6 +446,7 @@ func ZZSchedQuiet(f func() bool) bool {
 }
 
 var zzSchedQuietG = map[uint64]int{}
+var zzSchedEpoch int
 
 func ZZSchedPoint() {
 	zzSchedMu.Lock()
@@ -450,7 +467,13 @@ func ZZSchedPoint() {
 		zzSchedCond.Broadcast()
 	}
 	deadline := time.Now().Add(5 * time.Second)
+	zzSchedWaiting[me] = zzSchedPos
+	defer delete(zzSchedWaiting, me)
+	epoch := zzSchedEpoch
 	for zzSchedActive {
+		if epoch != zzSchedEpoch {
+			return // a goroutine left over from an earlier replay case: it runs freely
+		}
 		if zzSchedPos >= len(zzSchedTrace) {
 			zzSchedActive = false // trace exhausted: the recorded path ended here, everything else runs freely
 			zzSchedCond.Broadcast()
@@ -459,16 +482,78 @@ func ZZSchedPoint() {
 		if zzSchedTrace[zzSchedPos] == me && zzSchedRunning == -1 {
 			zzSchedRunning = me
 			zzSchedPos++
+			if os.Getenv("ZZ_SCHED_DEBUG") != "" {
+				for skip := 1; skip < 6; skip++ {
+					_, file, line, ok := runtime.Caller(skip)
+					if ok && !strings.HasSuffix(file, "zz_verif_clock.go") {
+						fmt.Fprintf(os.Stderr, "POINT %d T%d %s:%d\n", zzSchedPos-1, me, file[strings.LastIndex(file, "/")+1:], line)
+						break
+					}
+				}
+			}
 			return
 		}
 		if time.Now().After(deadline) {
 			zzSchedActive, zzSchedDiverge = false, true
 			zzSchedCond.Broadcast()
+			if os.Getenv("ZZ_SCHED_DEBUG") != "" {
+				buf := make([]byte, 1<<16)
+				n := runtime.Stack(buf, true)
+				fmt.Fprintf(os.Stderr, "SCHED DIVERGED me=%d pos=%d running=%d ids=%v\n%s\n", me, zzSchedPos, zzSchedRunning, zzSchedIDs, buf[:n])
+			}
 			return
 		}
 		t := time.AfterFunc(200*time.Millisecond, func() { zzSchedMu.Lock(); zzSchedCond.Broadcast(); zzSchedMu.Unlock() })
 		zzSchedCond.Wait()
 		t.Stop()
+	}
+}
+
+// ZZSchedSelect returns the case the engine chose at the select that is about to execute (-1: no forcing).
+func ZZSchedSelect() int {
+	zzSchedMu.Lock()
+	defer zzSchedMu.Unlock()
+	if !zzSchedActive {
+		return -1
+	}
+	if _, ok := zzSchedIDs[zzGoID()]; !ok {
+		return -1
+	}
+	if zzSelPos < len(zzSelTrace) {
+		k := zzSelTrace[zzSelPos]
+		zzSelPos++
+		return k
+	}
+	return -1
+}
+
+var zzSelTrace []int
+var zzSelPos int
+
+func ZZSchedSetSelects(sel []int) {
+	zzSchedMu.Lock()
+	zzSelTrace, zzSelPos = sel, 0
+	zzSchedMu.Unlock()
+}
+
+// ZZSchedSend performs ch <- v at a scheduling point. A send that has to wait for its receiver gives up the replay
+// token while it waits; an unbuffered send is followed by the hand-off point the engine records for it.
+func ZZSchedSend[C ~chan T | ~chan<- T, T any](ch C, v T) {
+	ZZSchedPoint()
+	c := (chan<- T)(ch)
+	select {
+	case c <- v:
+	default:
+		zzSchedMu.Lock()
+		if me, ok := zzSchedIDs[zzGoID()]; ok && zzSchedRunning == me {
+			zzSchedRunning = -1
+			zzSchedCond.Broadcast()
+		}
+		zzSchedMu.Unlock()
+		c <- v
+	}
+	if cap(c) == 0 {
+		ZZSchedPoint()
 	}
 }
 
@@ -484,6 +569,10 @@ func ZZSchedGo(f func()) {
 	active := zzSchedActive
 	id := zzSchedNext
 	zzSchedNext++
+	epoch := zzSchedEpoch
+	if _, known := zzSchedIDs[zzGoID()]; !known {
+		active = false // started by a goroutine left over from an earlier case
+	}
 	zzSchedMu.Unlock()
 	if !active {
 		go f()
@@ -498,7 +587,7 @@ func ZZSchedGo(f func()) {
 		ZZSchedPoint() // thread start
 		defer func() {
 			zzSchedMu.Lock()
-			if zzSchedRunning == id {
+			if zzSchedRunning == id && epoch == zzSchedEpoch {
 				zzSchedRunning = -1
 			}
 			zzSchedCond.Broadcast()
@@ -692,7 +781,7 @@ func runNative(repo, verif, pkgDir, pkgName string, harnessFiles []string, rewri
 		}
 		sb.WriteString(")\n\nfunc init() {\n")
 		for i := range depPkgs {
-			fmt.Fprintf(&sb, "\tzzdep%d.ZZSchedPointFn = zzclock.ZZSchedPoint\n\tzzdep%d.ZZSchedGoFn = zzclock.ZZSchedGo\n", i, i)
+			fmt.Fprintf(&sb, "\tzzdep%d.ZZSchedPointFn = zzclock.ZZSchedPoint\n\tzzdep%d.ZZSchedGoFn = zzclock.ZZSchedGo\n\tzzdep%d.ZZSchedSelectFn = zzclock.ZZSchedSelect\n", i, i, i)
 		}
 		sb.WriteString("}\n")
 		dp, err := write("zz_verif_deps.go", sb.String())
